@@ -448,6 +448,88 @@ def check_c15(chk, rng):
                             "thrower evaluated normally afterwards) and validated by EngineTrace C15 clauses; distinct = distinct scenario text")
 
 
+# ------------------------------------------------------------------------------------------------ C13
+def ref_program(rng, pid, horizon):
+    """targets (sources or computed streams) selected by one or two chained if_then_else; consumers below the
+    reference expose every tick (count), the value (rec / pass) and combine it with other streams"""
+    nodes = []
+    ntg = rng.randint(2, 3)
+    for _ in range(ntg):
+        nodes.append(P.node("src", script=P.gen_script(rng, horizon, maxlen=4, values=(1, 2, 3, 5, 7, 11))))
+        if rng.random() < 0.3:
+            nodes[-1]["mode"] = "all"
+    targets = list(range(1, ntg + 1))
+    if rng.random() < 0.4:   # a computed target
+        nodes.append(P.node(rng.choice(["acc", "add", "delay"]), ins=[rng.choice(targets)], k=rng.randint(1, 2)))
+        targets.append(len(nodes))
+    # selector with repeated values (republishing the same reference), flips, late first tick
+    times = sorted(rng.sample(range(1, horizon + 1), rng.randint(1, min(5, horizon))))
+    sel = []
+    for t in times:
+        sel.append([t, rng.choice([0, 1]) if not sel or rng.random() < 0.7 else sel[-1][1]])
+    nodes.append(P.node("src", script=sel))
+    c1 = len(nodes)
+    a, b = rng.sample(targets, 2)
+    nodes.append(P.node("ite", ins=[c1, a, b]))
+    ref = len(nodes)
+    if len(targets) > 2 and rng.random() < 0.5:   # a reference to a reference
+        times2 = sorted(rng.sample(range(1, horizon + 1), rng.randint(1, 3)))
+        nodes.append(P.node("src", script=[[t, rng.choice([0, 1])] for t in times2]))
+        c2 = len(nodes)
+        other = [x for x in targets if x not in (a, b)][0]
+        nodes.append(P.node("ite", ins=[c2, ref, other] if rng.random() < 0.5 else [c2, other, ref]))
+        ref = len(nodes)
+    nodes.append(P.node("count", ins=[ref]))
+    nodes.append(P.node("rec", ins=[len(nodes)]))
+    nodes.append(P.node("rec", ins=[ref]))
+    k = rng.choice(["pass", "acc", "sumu", "sample", "delay"])
+    if k in ("sumu", "sample"):
+        nodes.append(P.node(k, ins=[ref, rng.choice(targets)] if rng.random() < 0.5 else [rng.choice(targets), ref]))
+    else:
+        nodes.append(P.node(k, ins=[ref], k=1))
+    nodes.append(P.node("rec", ins=[len(nodes)]))
+    return P.program(pid, nodes, start=rng.choice([1, 1, 2]), end=horizon + 1)
+
+
+def check_c13(chk, rng):
+    n = 300 if chk.tier == "quick" else 4000
+    progs = [ref_program(rng, i + 1, rng.choice([6, 7, 9])) for i in range(n)]
+    preds, res = dfcheck.predict(progs, tag="c13")
+    chk.add_tlc(res, "references")
+    cases = []
+    for p in progs:
+        cases.append(Case(p, preds[p["id"]], P.render(p), "flat"))
+        gs = P.candidate_groups(p)
+        # sub-graphs that make the reference cross a nested-graph boundary (as an output, or as an input of consumers)
+        refs = {i for i, nd in enumerate(p["nodes"], 1) if nd["kind"] == "ite"}
+        gs = [g for g in gs if (set(g[0]) & refs) or (set(g[1]) & refs)]
+        # a reference handed out of a sub-graph declared to return a plain time-series is dereferenced at the boundary;
+        # chaining it into another selector outside would compare "unpublished reference" (inlined) with "invalid
+        # time-series" (nested), a typing difference rather than a behaviour of references - not presented
+        gs = [g for g in gs if not (g[2] in refs and any(g[2] in p["nodes"][r - 1]["ins"] for r in refs if r not in g[0]))]
+        rng.shuffle(gs)
+        for g in gs[:2]:
+            cases.append(Case(p, preds[p["id"]], P.render(p, group=g, mode="nested", depth=rng.choice([1, 1, 2])), "nested"))
+    execute(cases)
+    for c in cases:
+        chk.count({"scn": c.scn})
+        if isinstance(c.events, dict):
+            chk.violation("crash:" + c.what, "driver crashed or hung: %s" % json.dumps(c.events)[:300], replay_text(c, "crash"))
+            continue
+        diff = dfcheck.compare(c.prog, c.pred, c.events)
+        if diff:
+            chk.violation("ref-stream:" + c.what, "reading through the reference differs from reading its current target (Dataflow.tla): " + diff,
+                          replay_text(c, diff))
+    chk.coverage["traces_validated_against_impl"] += len(cases)
+    for c in cases[:2]:
+        chk.sample({"scenario": c.scn.splitlines(), "specified": c.pred["writes"][:16]})
+    chk.coverage["rule"] = ("2-4 targets (scripted or computed, incl. self-scheduling), one or two chained if_then_else selectors whose condition "
+                            "repeats values (republished reference), flips, first ticks late; consumers below the reference count every tick, record the "
+                            "value and combine it with other streams; the reference is also routed across nested-graph boundaries (depth 1-2); "
+                            "expectation = Dataflow.tla (readers observe the selected target; retarget = tick with the target's current value); "
+                            "distinct = distinct scenario text")
+
+
 # ------------------------------------------------------------------------------------------------ C09
 def check_c09(chk, rng):
     n = 200 if chk.tier == "quick" else 3000
@@ -504,7 +586,7 @@ def check_c09(chk, rng):
                             "validated by EngineTrace (C09.*); distinct = distinct scenario text")
 
 
-CHECKS = {"C15": check_c15, "C01": check_c01, "C02": check_c02, "C03": check_c03, "C06": check_c06, "C08": check_c08, "C09": check_c09}
+CHECKS = {"C13": check_c13, "C15": check_c15, "C01": check_c01, "C02": check_c02, "C03": check_c03, "C06": check_c06, "C08": check_c08, "C09": check_c09}
 
 
 def replay(pid, path):
